@@ -13,7 +13,7 @@ import (
 )
 
 func init() {
-	register("C20", "Structural clauses behind codec and framing soundness: for Stat and Packet the struct tags, the embedded descriptor (decoded from the rawDesc literal), both marshal variants, UnmarshalVT and the field mentions of SizeVT/CloneVT/EqualVT agree field by field on number and wire type; decoding never stores a sub-slice of its input (no-retain analysis of the input parameter, through nested messages) and UnmarshalVTUnsafe has no caller; every slice of the input and every allocation sized by a decoded length is dominated by fatal bounds tests; the stream adapter reads only with io.ReadFull, uses one byte-order object and a 4-byte prefix on both sides, returns before touching the pool on a zero length, returns the pooled buffer only by defer, writes prefix and body in one Write, and its panicking type assertions are satisfiable by the message type the module sends (finding F7, fixed). The body of a frame is read into a buffer cut to the frame's length. Does not decide round-trip equality for all values nor absence of panics on arbitrary bytes (index arithmetic).", runC20)
+	register("C20", "Structural clauses behind codec and framing soundness: for Stat and Packet the struct tags, the embedded descriptor (decoded from the rawDesc literal), both marshal variants, UnmarshalVT and the field mentions of SizeVT/CloneVT/EqualVT agree field by field on number and wire type; decoding never stores a sub-slice of its input (no-retain analysis of the input parameter, through nested messages) and UnmarshalVTUnsafe has no caller; every slice of the input and every allocation sized by a decoded length is dominated by fatal bounds tests; the stream adapter reads only with io.ReadFull, uses one byte-order object and a 4-byte prefix on both sides, returns before touching the pool on a zero length, returns the pooled buffer only by defer, writes prefix and body in one Write, and its panicking type assertions are satisfiable by the message type the module sends (finding F7, fixed). The body of a frame is read into a buffer cut to the frame's length. Every length prefix is sized (SizeVT) and written (both marshal variants) from the length of the payload it precedes. Does not decide round-trip equality for all values nor absence of panics on arbitrary bytes (index arithmetic).", runC20)
 }
 
 func runC20(c *Ctx) {
@@ -22,6 +22,7 @@ func runC20(c *Ctx) {
 	r20_3(c, "R20.3")
 	r20_4(c, "R20.4")
 	r20_5(c, "R20.5")
+	r20_6(c, "R20.6")
 }
 
 type codecMsg struct {
@@ -656,4 +657,131 @@ func r20_5(c *Ctx, rule string) {
 
 func shortType(s string) string {
 	return strings.ReplaceAll(s, eng.ModulePath+"/", "")
+}
+
+// R20.6: a length prefix is sized and written from the length of the very
+// payload it precedes. In SizeVT every SizeOfVarint(uint64(L)) with an int L
+// (a length - scalar fields have sized integer types) stands in a sum that
+// also adds L itself; in both marshal variants every EncodeVarint(.., uint64(L))
+// with an int L follows, in its block, `i -= L` for the same L as the nearest
+// move of the write position. A prefix sized from another length makes the
+// predicted size differ from the bytes written as soon as the two lengths need
+// varint widths that differ: the encoder, which fills the buffer from the back,
+// runs off its front or leaves a stray byte.
+func r20_6(c *Ctx, rule string) {
+	c.R.Rule(rule, "SizeVT: every SizeOfVarint of an int length L stands in a sum that adds L too; MarshalToSizedBufferVT(Strict): every EncodeVarint of an int length L follows `i -= L` (same L) as the nearest move of the write position in its block")
+	const helpers = "github.com/planetscale/vtprotobuf/protohelpers."
+	lenKey := func(v ssa.Value) string {
+		v = eng.Canon(v)
+		if call, ok := v.(*ssa.Call); ok && c.P.CalleeName(call) == "builtin:len" {
+			a := eng.Canon(call.Call.Args[0])
+			if o, _, _, ok := eng.LoadedFieldRaw(a); ok {
+				return "len(field " + o + ")"
+			}
+			return fmt.Sprintf("len(%p)", a)
+		}
+		return fmt.Sprintf("%p", v)
+	}
+	intLen := func(arg ssa.Value) (ssa.Value, bool) {
+		cv, ok := arg.(*ssa.Convert)
+		if !ok {
+			return nil, false
+		}
+		b, ok := cv.X.Type().Underlying().(*types.Basic)
+		if !ok || b.Kind() != types.Int {
+			return nil, false
+		}
+		return cv.X, true
+	}
+	nSize, nEnc := 0, 0
+	for _, m := range codecMsgs {
+		if fn := c.Fn(rule, "types.(*"+m.typ+").SizeVT"); fn != nil {
+			// sums: maximal trees of integer additions
+			isAdd := func(v ssa.Value) (*ssa.BinOp, bool) {
+				b, ok := v.(*ssa.BinOp)
+				return b, ok && b.Op == token.ADD
+			}
+			operandOfAdd := map[ssa.Value]bool{}
+			eng.InstrsShallow(fn, func(in ssa.Instruction) {
+				if b, ok := isAdd(valueOf(in)); ok {
+					operandOfAdd[b.X], operandOfAdd[b.Y] = true, true
+				}
+			})
+			eng.InstrsShallow(fn, func(in ssa.Instruction) {
+				root, ok := isAdd(valueOf(in))
+				if !ok || operandOfAdd[root] {
+					return
+				}
+				keys := map[string]int{}
+				var calls []*ssa.Call
+				var walk func(v ssa.Value)
+				walk = func(v ssa.Value) {
+					keys[lenKey(v)]++
+					if b, ok := isAdd(v); ok {
+						walk(b.X)
+						walk(b.Y)
+						return
+					}
+					if call, ok := v.(*ssa.Call); ok && c.P.CalleeName(call) == helpers+"SizeOfVarint" {
+						calls = append(calls, call)
+					}
+				}
+				walk(root)
+				sized := map[string]int{}
+				for _, call := range calls {
+					l, ok := intLen(call.Call.Args[0])
+					if !ok {
+						continue
+					}
+					nSize++
+					// (each prefix needs an addend of its own: two prefixes
+					// sized from one length against one addend is the slip)
+					sized[lenKey(l)]++
+					c.R.Check(keys[lenKey(l)] >= sized[lenKey(l)], rule, c.siteName(call)+"/payload-added", c.pos(call), "the sum adds the length whose prefix it sizes", "the length prefix is sized from a length the sum does not add: the predicted size is off by one when the two lengths need different varint widths, and the encoder runs off the front of its buffer or leaves a stray byte")
+				}
+			})
+		}
+		for _, meth := range []string{"MarshalToSizedBufferVT", "MarshalToSizedBufferVTStrict"} {
+			fn := c.Fn(rule, "types.(*"+m.typ+")."+meth)
+			if fn == nil {
+				continue
+			}
+			for _, call := range c.P.CallsTo(fn, helpers+"EncodeVarint") {
+				if call.Parent() != fn || len(call.Common().Args) != 3 {
+					continue
+				}
+				l, ok := intLen(call.Common().Args[2])
+				if !ok {
+					continue
+				}
+				if b, isB := eng.Canon(l).(*ssa.BinOp); isB && b.Op == token.SUB {
+					continue // baseI - i: the bytes written since the mark
+				}
+				var move *ssa.BinOp
+				for _, in := range call.Block().Instrs {
+					if in == ssa.Instruction(call) {
+						break
+					}
+					if b, isB := in.(*ssa.BinOp); isB && b.Op == token.SUB && b.Type() == l.Type() {
+						if _, isK := eng.ConstInt(b.Y); !isK {
+							move = b
+						}
+					}
+				}
+				if move == nil {
+					c.R.OK(rule, c.siteName(call)+"/payload-written", c.pos(call), "no move of the write position in this block (not decided here)")
+					continue
+				}
+				nEnc++
+				c.R.Check(lenKey(move.Y) == lenKey(l), rule, c.siteName(call)+"/payload-written", c.pos(call), "the prefix carries the length the write position was just moved by", "the length prefix written is not the length of the payload just written before it: the frame cannot be decoded")
+			}
+		}
+	}
+	c.R.Floor(rule, "length prefixes sized in SizeVT", nSize, 7)
+	c.R.Floor(rule, "length prefixes written by the marshal variants", nEnc, 12)
+}
+
+func valueOf(in ssa.Instruction) ssa.Value {
+	v, _ := in.(ssa.Value)
+	return v
 }
